@@ -234,7 +234,7 @@ func init() {
 		Rule: "case k: a declaration in which every command has 1-5 positional fields (string/int/float/Duration/uint8/Unmarshaler types, trailing slice in half), on the parser and on commands to depth 2; an intent vector of up to 14 items interleaving plain tokens with option occurrences at density {0,25,45}% and the terminator with probability {0,15,40,80}% followed by raw (also option-shaped) tokens. " +
 			"Oracle: positional field i holds the reference conversion of the i-th non-option token of its command, the slice/remaining arguments hold the rest in order. Non-trivial = at least one token bound; distinct = (#fields, rest?, #interleaved options, terminator?, bound count, typed count, depth).",
 		Assumptions: []string{"typed positionals receive only convertible tokens (conversion errors of positionals are outside the statement)"},
-		Technique:   "runtime reference-model monitor: positional fields and remaining arguments compared with the declaration-order denotation of an intent vector; metamorphic history monitor ([use, change of the public model, use] on one parser vs. a fresh parser of the changed declaration)",
+		Technique:   "runtime reference-model monitor: positional fields and remaining arguments compared with the declaration-order denotation of an intent vector; metamorphic history monitor ([use, change of the public model, use] on one parser vs. a fresh parser of the changed declaration); ownership monitor on the argument vector handed to ParseArgs",
 		LevelText:   "Exploration over layouts x interleavings with an exact denotation oracle; appropriate for an input-quantified binding rule of a deterministic function.",
 		LevelNote:   "Trusted: the intent walker's positional accounting and the reference conversions.",
 		DesignRef:   "§4 C10",
